@@ -55,8 +55,17 @@ type report struct {
 
 var rep report
 
+// inlineArgs: "relative/file.go:line:argindex" of go-statement arguments that
+// must not be hoisted into a temporary.
+var inlineArgs = map[string]bool{}
+
 func main() {
 	root := os.Args[1]
+	for _, e := range strings.Split(os.Getenv("VERIF_INLINE_ARGS"), ",") {
+		if e != "" {
+			inlineArgs[e] = true
+		}
+	}
 	skipDirs := map[string]bool{"test": true, "examples": true, "perf": true, "verifsim": true, ".git": true}
 	var files []string
 	filepath.Walk(root, func(p string, info os.FileInfo, err error) error {
@@ -259,6 +268,12 @@ func doFile(path, rel string) error {
 					simple = true
 				case *ast.Ident:
 					simple = v.Name == "nil" || v.Name == "true" || v.Name == "false"
+				}
+				// an argument the compiler told us is an untyped constant (see
+				// build_harness: "cannot use verifA<i> ..."): a temporary would
+				// give it its default type; a constant can stay where it is
+				if inlineArgs[fmt.Sprintf("%s:%d", st, i)] {
+					simple = true
 				}
 				if simple {
 					args = append(args, text(a.Pos(), a.End()))
